@@ -501,7 +501,7 @@ fn bb_worker(init: u64, max: u64, n: usize, pause_ms: u64, out: &mut Out) -> (us
     use sozu_command_lib::config::ListenerBuilder;
     use sozu_command_lib::proto::command::{request::RequestType, QueryClustersHashes, SocketAddress, WorkerRequest};
     use std::time::Duration;
-    let port = std::net::TcpListener::bind("127.0.0.1:0").unwrap().local_addr().unwrap().port();
+    let port = verif_harness::claim_port();
     let http_listener = ListenerBuilder::new_http(SocketAddress::new_v4(127, 0, 0, 1, port)).to_http(None).expect("listener");
     let (mut command, proxy): (Channel<WorkerRequest, WorkerResponse>, Channel<WorkerResponse, WorkerRequest>) =
         Channel::generate(init, max).expect("channel pair");
